@@ -176,7 +176,7 @@ func (c *child) exited(d time.Duration) bool {
 	}
 }
 
-func procTrial(tr *ttrace, arr *arrivals, c scase, dir, bin string, shard int, ups map[string]string) map[string]interface{} {
+func procTrial(tr *ttrace, arr *arrivals, c scase, dir, bin string, shard int, ups map[string]string) (result map[string]interface{}) {
 	ch, lis, err := startChild(dir, bin, ups)
 	if err != nil {
 		tail := ""
@@ -201,10 +201,21 @@ func procTrial(tr *ttrace, arr *arrivals, c scase, dir, bin string, shard int, u
 	conns := map[string]*live{}
 	prefix := fmt.Sprintf("p%d-%d", shard, c.ID)
 	fail := func(what string, err error) {
-		tr.Close()
-		killTree(dir)
-		vh.Must(fmt.Errorf("case %d %s: %v", c.ID, what, err), "set-up of the signal point")
+		tr.Emit(vh.Ev{"ev": "abandon", "why": what + ": " + short(err)})
+		panic(abandoned{})
 	}
+	defer func() {
+		if r := recover(); r != nil {
+			if _, ok := r.(abandoned); !ok {
+				panic(r)
+			}
+			for _, lv := range conns {
+				lv.cl.Close()
+			}
+			arr.releaseAll()
+			result = map[string]interface{}{"id": c.ID, "proto": c.Proto, "mode": c.Mode, "sig": c.Sig, "abandoned": true}
+		}
+	}()
 	for _, n := range names {
 		cl, err := li.dial(li.addr)
 		if err != nil {
@@ -286,7 +297,7 @@ func procTrial(tr *ttrace, arr *arrivals, c scase, dir, bin string, shard int, u
 		}
 		return err == nil
 	}
-	result := map[string]interface{}{"id": c.ID, "proto": c.Proto, "mode": c.Mode, "sig": c.Sig}
+	result = map[string]interface{}{"id": c.ID, "proto": c.Proto, "mode": c.Mode, "sig": c.Sig}
 
 	if c.Sig != "hup" {
 		// ---- graceful stop
@@ -412,13 +423,25 @@ func procTrial(tr *ttrace, arr *arrivals, c scase, dir, bin string, shard int, u
 			tr.Emit(vh.Ev{"ev": "c.req", "kind": "long", "c": n, "k": lv.k, "ok": ok, "detail": d, "final": true})
 		}
 	}
-	tr.Emit(vh.Ev{"ev": "quiesce", "exited": ex, "active": 0})
+	if !ex && upgradeGivenUp(dir) {
+		// the old process waited its fixed 5 s for the new one to report and resumed serving: on a loaded machine the
+		// start of the new process alone can take longer; no switch took place, nothing to judge
+		tr.Emit(vh.Ev{"ev": "abandon", "why": "the new process did not report within the old one's 5 s start-up limit"})
+		result["abandoned"] = true
+	} else {
+		tr.Emit(vh.Ev{"ev": "quiesce", "exited": ex, "active": 0})
+	}
 	result["exited"], result["elapsed_ms"] = ex, time.Since(t0).Milliseconds()
 	for _, lv := range conns {
 		lv.cl.Close()
 	}
 	arr.releaseAll()
 	return result
+}
+
+func upgradeGivenUp(dir string) bool {
+	b, err := os.ReadFile(filepath.Join(dir, "logs", "mosn.log"))
+	return err == nil && strings.Contains(string(b), "will resume the current server")
 }
 
 // quietRequest performs one complete request on lv without recording its phases.
